@@ -81,6 +81,43 @@ func runC03(c *Ctx) {
 				L.Trivial("bounded-loop", name, cons, pos, v.detail)
 			case "token":
 				nTok++
+				if !v.ok {
+					// a loop of a private helper that receives the current token as a parameter: decided
+					// on its copies in the inlined views of the functions that reach the helper
+					if roots, isHelper := c.helperRoots(fn); isHelper {
+						allOK, n := true, 0
+						var where []string
+						for _, root := range roots {
+							vw := c.viewOf(root)
+							if vw == root {
+								allOK = false
+								continue
+							}
+							for _, vf := range withAnons(vw) {
+								for _, vlp := range naturalLoops(vf) {
+									same := false
+									for _, hin := range vlp.Head.Instrs {
+										if o := c.views.OrigInstr[hin]; o != nil && o.Block() == lp.Head {
+											same = true
+										}
+									}
+									if !same {
+										continue
+									}
+									n++
+									if vv := eng.checkLoop(vf, vlp); !(vv.kind == "token" && vv.ok) && vv.kind != "bounded" {
+										allOK = false
+									}
+								}
+							}
+							where = append(where, c.P.FuncName(root))
+						}
+						if allOK && n > 0 {
+							v.ok = true
+							v.detail = fmt.Sprintf("decided on %d copy(ies) of the loop in the inlined view(s) of %s", n, strings.Join(where, ", "))
+						}
+					}
+				}
 				if v.ok {
 					L.OK("eof-loop", name, cons, pos, v.detail)
 				} else {
@@ -248,7 +285,6 @@ func runC03(c *Ctx) {
 
 // c03Justified: residual index expressions accepted with a reason (checked by reading).
 var c03Justified = []bceJustified{
-	{"io/nexus.(*Parser).parseData", "[]rune(lit4)[0]", "guarded by `len(lit4) != 1`: a one-byte string converts to exactly one rune"},
 	{"io/phylip.(*Parser).Parse", "seqs[i]", "the first loop appends exactly one name and one buffer per i in [0, nbseq) or returns an error; later loops use i < nbseq = len(seqs); the last loop ranges over names with len(names) == len(seqs)"},
 	{"io/phylip.(*Parser).Parse", "seqs[0]", "reached only after the first loop completed nbseq >= 1 iterations (nbseq == 0 and nbseq < 0 are rejected before), each of which appended one buffer"},
 	{"align.(*PartitionSet).AddRange", "ps.partitions[i]", "proved by rule table-index-safe (linear bounds with the struct invariant length == len(partitions))"},
